@@ -114,6 +114,10 @@ def scenarios(tier, seed):
                   "keys": ["k1", "k2", "k3"], "advances": [1, 2, 3, 4], "seed": seed * 1000 + 2,
                   "traces": 100 * k, "len": 120, "w_live": 15, "w_hb": 5, "fair_rounds": 4},
          dict(FD_CONST, Grace=3), False),
+        # five nodes (the upper end of the properties' cluster sizes), truncation, fair phase
+        ("s5", {"nodes": ["n1", "n2", "n3", "n4", "n5"], "grace": 3, "val_size": 30000, "keys": ["k1", "k2", "k3"],
+                "advances": [1, 2, 3, 4], "seed": seed * 1000 + 11, "traces": 40 * k, "len": 150, "nvals": 3,
+                "w_sync": 20, "w_cut": 3, "fair_rounds": 5}, {"Grace": 3, "Budget": 2}, False),
         ("s2w", {"nodes": ["n1", "n2"], "writers": ["n1"], "grace": 2, "keys": ["k1", "k2"],
                  "advances": [1, 2, 3], "seed": seed * 1000 + 3, "traces": 100 * k,
                  "len": 60, "nvals": 2, "w_ttl": 2}, {"Grace": 2}, False),
